@@ -510,44 +510,165 @@ Proof.
   destruct (trigger (flatten b2) ev c e p s) as [[tr s'] res]. rewrite IH. reflexivity.
 Qed.
 
-(* ------------------------------------------------------------------ where representation DOES matter
-   (the model mirrors the code; replayed on /repo these are the known findings) *)
 Definition h0 : hdr := mkHdr false false None false CNone CNone CNone CNone CNone CNone.
 Definition three : list op :=
   [AddStates [SName 0; SName 1; SName 2] CNone CNone None false; SetInitial (RName 1)].
 Definition ord (l : list sref) : op := AddOrdered (mkO (Some l) 0 false true ONone ONone ONone ONone ONone).
-
-(* KF-C13-1: add_ordered_transitions(states=[Enum members]) is not rotated to the initial state *)
-Lemma ordered_enum_refuted :
-  ~ beq (fst (exec (three ++ [ord [REnum 0; REnum 1; REnum 2]]) (empty h0)))
-        (fst (exec (three ++ [ord [RName 0; RName 1; RName 2]]) (empty h0))).
-Proof.
-  intros [H _]. destruct H as (_ & _ & _ & _ & _ & _ & _ & _ & _ & He).
-  specialize (He 0). vm_compute in He. specialize (He 0). vm_compute in He. discriminate.
-Qed.
-
-(* KF-C13-2: Machine.remove_transition(trigger, source=<Enum member>) removes nothing *)
 Definition go01 : list op :=
   three ++ [AddTransition (mkT 2 (SrcOne (RName 0)) (DstTo (RName 1)) no_cbs);
             AddTransition (mkT 2 (SrcOne (RName 1)) (DstTo (RName 2)) no_cbs)].
-Lemma remove_enum_refuted :
-  ~ beq (fst (exec (go01 ++ [RemoveTransition 2 (FList [REnum 0]) FWild]) (empty h0)))
-        (fst (exec (go01 ++ [RemoveTransition 2 (FList [RName 0]) FWild]) (empty h0))).
-Proof.
-  intros [H _]. destruct H as (_ & _ & _ & _ & _ & _ & _ & _ & _ & He).
-  specialize (He 2). vm_compute in He. specialize (He 0). vm_compute in He. discriminate.
-Qed.
 
-(* HierarchicalMachine.remove_transition converts references to names first *)
-Lemma remove_filter_repr_hsm : forall fs fd t,
-  t_match true fs fd t =
-  t_match true (match fs with FWild => FWild | FList l => FList (map name_ref l) end)
-               (match fd with FWild => FWild
-                | FList l => FList (map (fun o => match o with Some r => Some (name_ref r) | None => None end) l) end) t.
+(* ------------------------------------------------------------------ remove_transition: the
+   filter is independent of the representation of its elements *)
+Lemma t_match_names : forall fs fd t,
+  t_match (name_filt_src fs) (name_filt_dst fd) t = t_match fs fd t.
 Proof.
   intros fs fd t. unfold t_match. f_equal.
   - destruct fs as [|l]; [reflexivity|]. simpl. induction l as [|r l IH]; simpl; [reflexivity|].
-    rewrite IH. f_equal. destruct r; reflexivity.
+    rewrite IH. reflexivity.
   - destruct fd as [|l]; [reflexivity|]. simpl. induction l as [|r l IH]; simpl; [reflexivity|].
-    rewrite IH. f_equal. destruct r as [[]|]; destruct (t_dst t); reflexivity.
+    rewrite IH. f_equal. destruct r as [r|]; destruct (t_dst t); reflexivity.
 Qed.
+
+Lemma remove_groups_ext : forall m1 m2 g, (forall t, m1 t = m2 t) -> remove_groups m1 g = remove_groups m2 g.
+Proof.
+  intros m1 m2 g H. unfold remove_groups. f_equal. apply map_ext. intros [s ts]. simpl. f_equal.
+  apply filter_ext. intros t. rewrite H. reflexivity.
+Qed.
+
+Lemma remove_ev_ext : forall m1 m2 trig evs, (forall t, m1 t = m2 t) ->
+  remove_ev m1 trig evs = remove_ev m2 trig evs.
+Proof.
+  intros m1 m2 trig evs H. induction evs as [|[e g] r IH]; simpl; [reflexivity|].
+  rewrite IH, (remove_groups_ext m1 m2 g H). reflexivity.
+Qed.
+
+Lemma filt_enum_bad_names : forall b fs fd, filt_enum_bad b (name_filt_src fs) (name_filt_dst fd) = false.
+Proof.
+  intros b fs fd. unfold filt_enum_bad.
+  assert (A : match name_filt_src fs with FWild => false | FList l => existsb (enum_bad b) l end = false).
+  { destruct fs as [|l]; [reflexivity|]. simpl. apply enum_bad_names. }
+  rewrite A. simpl. destruct fd as [|l]; [reflexivity|]. simpl.
+  induction l as [|o l IH]; simpl; [reflexivity|]. rewrite IH. destruct o; reflexivity.
+Qed.
+
+(* Machine and HierarchicalMachine: names, Enum members and State objects select the same
+   transitions (HierarchicalMachine raises for an Enum member no state was created from) *)
+Lemma remove_filter_repr : forall trig fs fd b,
+  h_hsm (b_hdr b) && filt_enum_bad b fs fd = false ->
+  remove_transition trig (name_filt_src fs) (name_filt_dst fd) b = remove_transition trig fs fd b.
+Proof.
+  intros trig fs fd b H. unfold remove_transition. rewrite H, filt_enum_bad_names, andb_false_r.
+  destruct (has_key trig (b_events b)); [|reflexivity].
+  rewrite (remove_ev_ext (t_match (name_filt_src fs) (name_filt_dst fd)) (t_match fs fd)); [reflexivity|].
+  intros t. apply t_match_names.
+Qed.
+
+(* ------------------------------------------------------------------ ordered helper: the
+   states argument is independent of the representation of its elements *)
+Lemma index_of_map {A B} : forall (f : A -> B) (p : B -> bool) (q : A -> bool) l,
+  (forall x, p (f x) = q x) -> index_of p (map f l) = index_of q l.
+Proof.
+  intros f p q l H. induction l as [|x r IH]; simpl; [reflexivity|]. rewrite H, IH. reflexivity.
+Qed.
+
+Lemma rotate_map {A B} : forall (f : A -> B) k l, rotate k (map f l) = map f (rotate k l).
+Proof. intros. unfold rotate. rewrite map_app, skipn_map, firstn_map. reflexivity. Qed.
+
+Lemma ordered_ts_names : forall b o l,
+  ordered_ts b (with_states o (Some (map name_ref l))) =
+  match ordered_ts b (with_states o (Some l)) with
+  | inl e => inl e
+  | inr ts => inr (map name_tspec ts)
+  end.
+Proof.
+  intros b o l. unfold ordered_ts. cbn [with_states o_states o_trig o_loop o_incl o_conds o_unless o_before o_after o_prepare].
+  rewrite map_length. destruct (Nat.ltb (length l) 2); [reflexivity|].
+  destruct (prep _ (o_conds o)) as [c|]; [|reflexivity].
+  destruct (prep _ (o_unless o)) as [u|]; [|reflexivity].
+  destruct (prep _ (o_before o)) as [bf|]; [|reflexivity].
+  destruct (prep _ (o_after o)) as [af|]; [|reflexivity].
+  destruct (prep _ (o_prepare o)) as [pr|]; [|reflexivity].
+  rewrite (index_of_map name_ref (is_init (b_initial b)) (is_init (b_initial b)) l)
+    by (intros x; unfold is_init; destruct (b_initial b); reflexivity).
+  f_equal.
+  change (RName 0) with (name_ref (RName 0)).
+  destruct (index_of (is_init (b_initial b)) l) as [idx|]; cbn [fst snd].
+  - rewrite rotate_map, map_app. f_equal.
+    + rewrite map_map. apply map_ext. intros i. unfold name_tspec. cbn [ts_trig ts_src ts_dst ts_cbs name_src name_dst].
+      rewrite !map_nth. reflexivity.
+    + destruct (o_loop o); [|reflexivity]. simpl map. unfold name_tspec.
+      cbn [ts_trig ts_src ts_dst ts_cbs name_src name_dst]. rewrite !map_nth. reflexivity.
+  - rewrite map_app. f_equal.
+    + rewrite map_map. apply map_ext. intros i. unfold name_tspec. cbn [ts_trig ts_src ts_dst ts_cbs name_src name_dst].
+      rewrite !map_nth. reflexivity.
+    + destruct (o_loop o); [|reflexivity]. simpl map. unfold name_tspec.
+      cbn [ts_trig ts_src ts_dst ts_cbs name_src name_dst]. rewrite !map_nth. reflexivity.
+Qed.
+
+Lemma refs_ok_frame : forall b evs t, refs_ok (set_events b evs) t = refs_ok b t.
+Proof. reflexivity. Qed.
+
+Lemma exec_ts_names : forall ts b, Forall (fun t => refs_ok b t = true) ts ->
+  exec_ts (map name_tspec ts) b = exec_ts ts b.
+Proof.
+  induction ts as [|t r IH]; intros b F; simpl; [reflexivity|].
+  inversion F as [|? ? Ht Fr]; subst.
+  unfold name_tspec at 1. rewrite (ref_repr t b Ht).
+  destruct (add_transition t b) as [b' [e|]] eqn:E; [reflexivity|].
+  apply IH. rewrite (add_transition_frame _ _ _ _ E).
+  eapply Forall_impl; [|exact Fr]. intros a Ha. rewrite refs_ok_frame. exact Ha.
+Qed.
+
+Lemma nth_ref_ok : forall b l i, forallb (ref_ok b) l = true -> ref_ok b (nth i l (RName 0)) = true.
+Proof.
+  intros b l. induction l as [|x r IH]; intros i H; destruct i; simpl in *; try reflexivity.
+  - apply andb_prop in H. apply H.
+  - apply andb_prop in H. apply IH. apply H.
+Qed.
+
+Lemma forallb_rotate {A} : forall (p : A -> bool) k l, forallb p (rotate k l) = forallb p l.
+Proof.
+  intros. unfold rotate. rewrite forallb_app, andb_comm, <- forallb_app, firstn_skipn. reflexivity.
+Qed.
+
+Lemma ordered_refs_ok : forall b o l ts, forallb (ref_ok b) l = true ->
+  ordered_ts b (with_states o (Some l)) = inr ts -> Forall (fun t => refs_ok b t = true) ts.
+Proof.
+  intros b o l ts Hl H. unfold ordered_ts in H.
+  cbn [with_states o_states o_trig o_loop o_incl o_conds o_unless o_before o_after o_prepare] in H.
+  destruct (Nat.ltb (length l) 2); [discriminate|].
+  destruct (prep _ (o_conds o)) as [c|]; [|discriminate].
+  destruct (prep _ (o_unless o)) as [u|]; [|discriminate].
+  destruct (prep _ (o_before o)) as [bf|]; [|discriminate].
+  destruct (prep _ (o_after o)) as [af|]; [|discriminate].
+  destruct (prep _ (o_prepare o)) as [pr|]; [|discriminate].
+  remember (match index_of (is_init (b_initial b)) l with
+            | Some idx => (rotate idx l, nth (if o_incl o then 0 else 1) (rotate idx l) (RName 0))
+            | None => (l, nth 0 l (RName 0)) end) as rf eqn:Erf.
+  assert (K : forallb (ref_ok b) (fst rf) = true /\ ref_ok b (snd rf) = true).
+  { subst rf. destruct (index_of (is_init (b_initial b)) l); cbn [fst snd].
+    - assert (R : forallb (ref_ok b) (rotate n l) = true) by (rewrite forallb_rotate; exact Hl).
+      split; [exact R|apply nth_ref_ok; exact R].
+    - split; [exact Hl|apply nth_ref_ok; exact Hl]. }
+  destruct K as [K1 K2]. injection H as H. subst ts.
+  apply Forall_app. split.
+  - apply Forall_forall. intros t Hin. apply in_map_iff in Hin. destruct Hin as [i [Et _]]. subst t.
+    unfold refs_ok. cbn [ts_src ts_dst]. rewrite !nth_ref_ok by exact K1. reflexivity.
+  - destruct (o_loop o); [|constructor]. constructor; [|constructor].
+    unfold refs_ok. cbn [ts_src ts_dst]. rewrite nth_ref_ok by exact K1. rewrite K2. reflexivity.
+Qed.
+
+(* add_ordered_transitions(states=[names / Enum members / State objects]): same machine *)
+Lemma ordered_repr : forall o l b, forallb (ref_ok b) l = true ->
+  add_ordered (with_states o (Some (map name_ref l))) b = add_ordered (with_states o (Some l)) b.
+Proof.
+  intros o l b Hl. unfold add_ordered. rewrite ordered_ts_names.
+  destruct (ordered_ts b (with_states o (Some l))) as [e|ts] eqn:E; [reflexivity|].
+  apply exec_ts_names. eapply ordered_refs_ok; eassumption.
+Qed.
+
+(* states=None is the list of all state names *)
+Lemma ordered_default_states : forall o b,
+  add_ordered (with_states o None) b = add_ordered (with_states o (Some (map RName (state_names b)))) b.
+Proof. reflexivity. Qed.
